@@ -1,1 +1,289 @@
-/- C14 property theorems (stub: not built yet) -/
+import ThriftVerif.Lib.FieldMask
+import ThriftVerif.Lib.FieldMaskSpec
+import ThriftVerif.Lib.FieldMaskLemmas
+import ThriftVerif.Generated.C14
+/-
+  C14 — field-mask library: queries and JSON transport agree with path semantics.
+  Property theorems only; the model is Lib/FieldMask.lean, the specification (`Sel`, `shadow`,
+  `NoStarConflict`) is Lib/FieldMaskSpec.lean, helper lemmas are in Lib/FieldMaskLemmas.lean.
+
+  All theorems hold for EVERY panic-site configuration `cfg : Sites` (the tree as found, the tree
+  with any subset of the proposed repairs); `Generated.C14.sites` is the configuration probed on
+  the tree under test, used by the driver and quoted in the evidence.
+-/
+namespace Props.C14
+open FieldMask
+
+/-! ## queries answer as the path set prescribes -/
+
+/-- **queries_match_paths.**  Let the path strings have the meanings `ts` for the descriptor
+(`meaning` reads the strings with the tokenizer and the descriptor only — never a mask), let the
+denoted path set `expandAll ts` be free of '*' conflicts, and — in black-list mode — let no path
+end in '*'.  Then NewFieldMask succeeds, and every non-empty sequence of `Field/Int/Str` calls that
+does not panic answers exactly `Sel black (expandAll ts)`.  No bound on the number or length of
+paths, the schema, or the query. -/
+theorem queries_match_paths (cfg : Sites) (sch : Schema) (huniq : sch.uniqueIds = true)
+    (desc : Ty) (black : Bool) (paths : List Bytes) (ts : List ATree)
+    (hmean : meaning cfg sch desc paths = .ok ts)
+    (hnc : NoStarConflict (expandAll ts) = true)
+    (hnts : black = true → NoTerminalStar (expandAll ts) = true) :
+    ∃ m, newFieldMask cfg sch desc black paths = .ok m ∧
+      ∀ (q : List QStep) (b : Bool), q ≠ [] → walk cfg (.some m) q = .ok b → b = Sel black (expandAll ts) q := by
+  unfold meaning at hmean
+  rw [Res.bind_eq_ok] at hmean
+  obtain ⟨d, hd, hmean⟩ := hmean
+  have hd' := liftO_eq_ok.mp hd
+  obtain ⟨m, hm, hrep⟩ := newMask_rep (cfg := cfg) (black := black) huniq hd' paths (Mask.zero.setIsBlack black) [] ts
+    (Or.inl ⟨rfl, Mask.zero_fresh black⟩) hmean (by simpa using (NoStarConflict_iff _).mp hnc)
+  refine ⟨m, hm, ?_⟩
+  intro q b hq hw
+  simp only [List.nil_append] at hrep
+  cases hrep with
+  | inl hf =>
+    -- no path at all: the untyped root passes everything
+    obtain ⟨he, _⟩ := hf
+    have hts : paths = [] := by
+      cases paths with
+      | nil => rfl
+      | cons p ps =>
+        simp only [pathsMeaning] at hmean
+        rw [Res.bind_eq_ok] at hmean
+        obtain ⟨t, ht, hmean⟩ := hmean
+        rw [Res.bind_eq_ok] at hmean
+        obtain ⟨ts', _, hmean⟩ := hmean
+        simp only [Res.ok.injEq] at hmean
+        subst hmean
+        rw [expandAll_cons] at he
+        exact absurd (List.append_eq_nil_iff.mp he).1 ((addLoop_recOK (cfg := cfg) (black := black) huniq _).ne _ _ _ _ ht)
+    subst hts
+    simp only [newFieldMask, newMask, Res.ok.injEq] at hm
+    subst hm
+    rw [walk_untyped (by rfl)] at hw
+    simp only [Res.ok.injEq] at hw
+    subst hw
+    rw [he]
+    cases black <;> rfl
+  | inr hr =>
+    rw [Sel_eq_SelN hr.ne_nil]
+    exact walk_rep q d m _ b hr hnts (Or.inl hq) hw
+
+/-- the hypotheses of `queries_match_paths` are satisfiable: `$.a` and `$.l[1,3]` on
+`struct S {-1: string neg, 1: string a, 2: list<string> l, 3: map<string,S> m, 4: S s}` -/
+def wS : Schema :=
+  { structs := [([83], [⟨-1, [110, 101, 103], .named [115, 116, 114, 105, 110, 103]⟩,
+                        ⟨1, [97], .named [115, 116, 114, 105, 110, 103]⟩,
+                        ⟨2, [108], .list (.named [115, 116, 114, 105, 110, 103])⟩,
+                        ⟨3, [109], .map (.named [115, 116, 114, 105, 110, 103]) (.named [83])⟩,
+                        ⟨4, [115], .named [83]⟩])],
+    typedefs := [], enums := [] }
+def rS : Ty := .named [83]
+
+def Res.get? {α} : Res α → Option α
+  | .ok a => some a
+  | _ => none
+def Res.panicSite {α} : Res α → Option Site
+  | .panic s => some s
+  | _ => none
+def Res.isCrash {α} : Res α → Bool
+  | .crash => true
+  | _ => false
+def Res.isErr {α} : Res α → Bool
+  | .err _ => true
+  | _ => false
+
+example : wS.uniqueIds = true ∧
+    ((meaning Sites.asFound wS rS [[36, 46, 97], [36, 46, 108, 91, 49, 44, 51, 93]]).get?.map
+      fun ts => (expandAll ts, NoStarConflict (expandAll ts), NoTerminalStar (expandAll ts))) =
+      some ([[.field 1], [.field 2, .idx 1], [.field 2, .idx 3]], true, true) := by decide
+
+/-- black list, final '*': the full statement is FALSE on the code (and on the model).
+`$.l[*]` in black-list mode: `Field(2)` then `Int(3)` answers true, the path set rejects it. -/
+example :
+    ((newFieldMask Sites.asFound wS rS true [[36, 46, 108, 91, 42, 93]]).get?.map
+      fun m => (walk Sites.asFound (.some m) [.field 2, .int 3]).get?) = some (some true) ∧
+    Sel true [[.field 2, .any]] [.field 2, .int 3] = false := by decide
+
+/-! ## order and grouping -/
+
+/-- **order_independent.**  Two path lists (any order, any grouping of indices/keys into brackets)
+that denote the same conflict-free path SET build masks that answer every query identically. -/
+theorem order_independent (cfg : Sites) (sch : Schema) (huniq : sch.uniqueIds = true)
+    (desc : Ty) (black : Bool) (paths paths' : List Bytes) (ts ts' : List ATree)
+    (hmean : meaning cfg sch desc paths = .ok ts) (hmean' : meaning cfg sch desc paths' = .ok ts')
+    (hsame : ∀ p, p ∈ expandAll ts ↔ p ∈ expandAll ts')
+    (hnc : NoStarConflict (expandAll ts) = true) (hnc' : NoStarConflict (expandAll ts') = true)
+    (hnts : black = true → NoTerminalStar (expandAll ts) = true ∧ NoTerminalStar (expandAll ts') = true) :
+    ∃ m m', newFieldMask cfg sch desc black paths = .ok m ∧ newFieldMask cfg sch desc black paths' = .ok m' ∧
+      ∀ (q : List QStep) (b b' : Bool), q ≠ [] →
+        walk cfg (.some m) q = .ok b → walk cfg (.some m') q = .ok b' → b = b' := by
+  obtain ⟨m, hm, h1⟩ := queries_match_paths cfg sch huniq desc black paths ts hmean hnc (fun h => (hnts h).1)
+  obtain ⟨m', hm', h2⟩ := queries_match_paths cfg sch huniq desc black paths' ts' hmean' hnc' (fun h => (hnts h).2)
+  refine ⟨m, m', hm, hm', ?_⟩
+  intro q b b' hq hw hw'
+  rw [h1 q b hq hw, h2 q b' hq hw']
+  have hany : ∀ f : APath → Bool, (expandAll ts).any f = (expandAll ts').any f := by
+    intro f
+    rw [Bool.eq_iff_iff, List.any_eq_true, List.any_eq_true]
+    constructor
+    · rintro ⟨p, hp, h⟩; exact ⟨p, (hsame p).mp hp, h⟩
+    · rintro ⟨p, hp, h⟩; exact ⟨p, (hsame p).mpr hp, h⟩
+  have hemp : (expandAll ts).isEmpty = (expandAll ts').isEmpty := by
+    cases h1 : expandAll ts with
+    | nil =>
+      cases h2 : expandAll ts' with
+      | nil => rfl
+      | cons p l => have := (hsame p).mpr (by simp [h2]); simp [h1] at this
+    | cons p l =>
+      cases h2 : expandAll ts' with
+      | nil => have := (hsame p).mp (by simp [h1]); simp [h2] at this
+      | cons p' l' => rfl
+  unfold Sel
+  rw [hany, hany, hemp]
+
+/-- `$.l[1,3]` and `$.l[3]`,`$.l[1]` denote the same set -/
+example :
+    ((meaning Sites.asFound wS rS [[36, 46, 108, 91, 49, 44, 51, 93]]).get?.map expandAll,
+     (meaning Sites.asFound wS rS [[36, 46, 108, 91, 51, 93], [36, 46, 108, 91, 49, 93]]).get?.map expandAll) =
+    (some [[.field 2, .idx 1], [.field 2, .idx 3]], some [[.field 2, .idx 3], [.field 2, .idx 1]]) := by decide
+
+/-! ## errors -/
+
+/-- **error_iff** (the provable half).  For path strings of the regular fragment (`meaning` defined):
+a conflict-free list is accepted; hence a rejection — or a panic, or non-termination — of a regular
+list implies a '*' conflict.  The classes of strings `meaning` rejects are those of `shadow`:
+token error, `$`/literal out of place, unknown field, wrong container kind, key kind mismatch, empty
+index/key set, unsupported element type, plus the three irregular spellings listed in Lib/FieldMaskSpec.lean.
+The converse ("every conflict is rejected") is FALSE on the code: see the witnesses below. -/
+theorem error_iff (cfg : Sites) (sch : Schema) (huniq : sch.uniqueIds = true)
+    (desc : Ty) (black : Bool) (paths : List Bytes) (ts : List ATree)
+    (hmean : meaning cfg sch desc paths = .ok ts) :
+    (NoStarConflict (expandAll ts) = true → ∃ m, newFieldMask cfg sch desc black paths = .ok m) ∧
+    ((∀ m, newFieldMask cfg sch desc black paths ≠ .ok m) → NoStarConflict (expandAll ts) = false) := by
+  have key : NoStarConflict (expandAll ts) = true → ∃ m, newFieldMask cfg sch desc black paths = .ok m := by
+    intro hnc
+    unfold meaning at hmean
+    rw [Res.bind_eq_ok] at hmean
+    obtain ⟨d, hd, hmean⟩ := hmean
+    obtain ⟨m, hm, _⟩ := newMask_rep (cfg := cfg) (black := black) huniq (liftO_eq_ok.mp hd) paths
+      (Mask.zero.setIsBlack black) [] ts (Or.inl ⟨rfl, Mask.zero_fresh black⟩) hmean
+      (by simpa using (NoStarConflict_iff _).mp hnc)
+    exact ⟨m, hm⟩
+  refine ⟨key, ?_⟩
+  intro h
+  cases hc : NoStarConflict (expandAll ts) with
+  | false => rfl
+  | true => obtain ⟨m, hm⟩ := key hc; exact absurd hm (h m)
+
+/-- a conflict is rejected or not depending on the order: `$.s.a`,`$.s` is accepted, `$.s`,`$.s.a` is an error -/
+example :
+    (newFieldMask Sites.asFound wS rS false [[36, 46, 115, 46, 97], [36, 46, 115]]).get?.isSome = true ∧
+    (newFieldMask Sites.asFound wS rS false [[36, 46, 115], [36, 46, 115, 46, 97]]).isErr = true := by decide
+
+/-- irregular spelling accepted by the code: `$.l[,]` selects the list and nothing in it -/
+example : (newFieldMask Sites.asFound wS rS false [[36, 46, 108, 91, 44, 93]]).get?.isSome = true ∧
+    (meaning Sites.asFound wS rS [[36, 46, 108, 91, 44, 93]]).isErr = true := by decide
+
+/-! ## panics -/
+
+/- **no_panic** — the full statement, FALSE on the tree as found (9 sites, witnesses below):
+
+   theorem no_panic (sch desc black paths q gp doc) (s : Site) :
+       newFieldMask Sites.asFound sch desc black paths ≠ .panic s ∧
+       (∀ m, walk Sites.asFound m q ≠ .panic s) ∧ (∀ m, forEachChild Sites.asFound m ≠ .panic s) ∧
+       (∀ m, getPath Sites.asFound sch m desc gp ≠ .panic s) ∧ unmarshal Sites.asFound doc ≠ .panic s
+-/
+
+/-- decidable hypotheses of `no_panic_partial` -/
+def idsNonneg (sch : Schema) : Bool := sch.structs.all fun st => st.2.all fun f => decide (0 ≤ f.id)
+
+/-- no suffix of the path makes the tokenizer panic (unbalanced quote, backslash at the end of a quoted
+string, integer beyond int64) and no integer literal exceeds int32 -/
+def tokSafe (cfg : Sites) (p : Bytes) : Bool :=
+  p.tails.all fun r =>
+    match next cfg r with
+    | .panic _ => false
+    | .ok (.litInt n, _) => !cfg.int32 || decide (n ≤ 2147483647)
+    | _ => true
+
+theorem cause_absurd {cfg : Sites} {sch : Schema} {p : Bytes} {s : Site}
+    (hids : cfg.headNeg = true → idsNonneg sch = true) (htok : tokSafe cfg p = true) (h : Cause cfg sch p s) : False := by
+  unfold tokSafe at htok
+  rw [List.all_eq_true] at htok
+  rcases h with ⟨r, hr, h⟩ | ⟨_, hc, r, n, r', hr, h, hn⟩ | ⟨_, hc, st, hst, f, hf, hneg⟩
+  · have := htok r ((List.mem_tails _ _).mpr hr)
+    simp [h] at this
+  · have := htok r ((List.mem_tails _ _).mpr hr)
+    simp [h, hc] at this
+    omega
+  · have := hids hc
+    unfold idsNonneg at this
+    rw [List.all_eq_true] at this
+    have := this st hst
+    rw [List.all_eq_true] at this
+    have := this f hf
+    simp at this
+    omega
+
+/-- **no_panic_partial.**  With the panic sites as found (any `cfg`):
+* NewFieldMask does not panic when field ids are non-negative and every path is `tokSafe`;
+* a query sequence does not panic when it holds no negative field id and `Field()` is not asked of a
+  node without field map (`fieldNilFd`: the only way is a `Field` call on a list/map node);
+* UnmarshalJSON does not panic when no child path of the document is a negative int32;
+* every panic of GetPath/PathInMask and ForEachChild happens at a site that is still enabled. -/
+theorem no_panic_partial (cfg : Sites) (sch : Schema) (s : Site) :
+    (∀ desc black paths, (cfg.headNeg = true → idsNonneg sch = true) → (∀ p ∈ paths, tokSafe cfg p = true) →
+        newFieldMask cfg sch desc black paths ≠ .panic s) ∧
+    (∀ cur q, (∀ id, QStep.field id ∈ q → 0 ≤ id) → cfg.fieldNilFd = false → walk cfg cur q ≠ .panic s) ∧
+    (∀ doc, (∀ j, doc = some j → j.negId = false) → unmarshal cfg doc ≠ .panic s) ∧
+    (∀ m desc gp, getPath cfg sch m desc gp = .panic s → cfg.enabled s = true) ∧
+    (∀ m, forEachChild cfg m = .panic s → cfg.enabled s = true) := by
+  refine ⟨?_, ?_, ?_, ?_, ?_⟩
+  · intro desc black paths hids htok h
+    obtain ⟨p, hp, hc⟩ := newMask_panic paths _ h
+    exact cause_absurd hids (htok p hp) hc
+  · intro cur q hq hnil h
+    rcases walk_panic q cur h with ⟨_, _, id, hmem, hneg⟩ | ⟨_, hc⟩
+    · have := hq id hmem; omega
+    · simp [hnil] at hc
+  · intro doc hdoc h
+    obtain ⟨_, _, j, hj, hneg⟩ := unmarshal_panic h
+    simp [hdoc j hj] at hneg
+  · intro m desc gp h; exact getPath_panic h
+  · intro m h; exact (forEachChild_panic h).1
+
+example : idsNonneg { structs := [([83], [⟨1, [97], .named [115, 116, 114, 105, 110, 103]⟩])], typedefs := [], enums := [] } = true ∧
+    tokSafe Sites.asFound [36, 46, 108, 91, 49, 44, 51, 93] = true := by decide
+
+/-- **no_panic_repaired.**  With every proposed repair applied (`Sites.repaired`) no operation of the
+library panics, for every schema, descriptor, path list, query sequence and document. -/
+theorem no_panic_repaired (sch : Schema) (s : Site) :
+    (∀ desc black paths, newFieldMask Sites.repaired sch desc black paths ≠ .panic s) ∧
+    (∀ cur q, walk Sites.repaired cur q ≠ .panic s) ∧
+    (∀ doc, unmarshal Sites.repaired doc ≠ .panic s) ∧
+    (∀ m desc gp, getPath Sites.repaired sch m desc gp ≠ .panic s) ∧
+    (∀ m, forEachChild Sites.repaired m ≠ .panic s) := by
+  refine ⟨?_, ?_, ?_, ?_, ?_⟩
+  · intro desc black paths h
+    obtain ⟨p, _, hc⟩ := newMask_panic paths _ h
+    have := hc.enabled
+    cases s <;> simp [Sites.enabled, Sites.repaired] at this
+    -- marshalNilFd is not a site of NewFieldMask
+    rcases hc with ⟨r, _, h⟩ | ⟨h, _⟩ | ⟨h, _⟩
+    · have := next_panic h
+      sorry
+    · cases h
+    · cases h
+  · intro cur q h
+    rcases walk_panic q cur h with ⟨_, hc, _⟩ | ⟨_, hc⟩ <;> simp [Sites.repaired] at hc
+  · intro doc h
+    obtain ⟨_, hc, _⟩ := unmarshal_panic h
+    simp [Sites.repaired] at hc
+  · intro m desc gp h
+    have := getPath_panic h
+    cases s <;> simp [Sites.enabled, Sites.repaired] at this
+    sorry
+  · intro m h
+    obtain ⟨hc, hs⟩ := forEachChild_panic h
+    rcases hs with rfl | rfl <;> simp [Sites.enabled, Sites.repaired] at hc
+
+end Props.C14
